@@ -1,6 +1,6 @@
 //! C06 — top-K collection returns exactly the best K, with deterministic ties.
 use std::cmp::Ordering;
-use std::collections::BTreeMap;
+use std::collections::{BTreeMap, BTreeSet};
 
 use proptest::prelude::*;
 use serde::{Deserialize, Serialize};
@@ -40,6 +40,8 @@ pub enum Key {
     Str(bool),
     Tweak,
     NumThenScore,
+    /// SortByErasedType on the JSON fast column `attrs.v` (integers of mixed column type across segments)
+    JsonV(bool),
 }
 #[derive(Clone, Debug, Serialize, Deserialize)]
 pub enum SQ {
@@ -54,6 +56,8 @@ pub enum SQ {
     /// single term / union on `bnf` (frequencies, no field norms)
     TermNf(u8),
     UnionNf(Vec<u8>),
+    /// union of body terms queried without frequencies (IndexRecordOption::Basic on a field indexed with positions)
+    UnionBasic(Vec<u8>),
 }
 #[derive(Clone, Debug, Serialize, Deserialize)]
 pub struct Probe {
@@ -82,6 +86,7 @@ fn to_q(sq: &SQ) -> Q {
         SQ::TagUnion(ts) => Q::Bool(ts.iter().map(|t| (1u8, Q::Tag(*t))).collect(), None),
         SQ::TermNf(w) => Q::TermNf(*w),
         SQ::UnionNf(ws) => Q::Bool(ws.iter().map(|w| (1u8, Q::TermNf(*w))).collect(), None),
+        SQ::UnionBasic(ws) => Q::Bool(ws.iter().map(|w| (1u8, Q::Term(*w, 0))).collect(), None),
     }
 }
 fn clauses(q: &Q) -> usize {
@@ -118,6 +123,7 @@ impl Sub for TopK {
             1 => prop::collection::vec(0..NUM_TAGS, 2..4).prop_map(SQ::TagUnion),
             1 => w().prop_map(SQ::TermNf),
             1 => prop::collection::vec(w(), 2..5).prop_map(SQ::UnionNf),
+            2 => prop::collection::vec(w(), 2..5).prop_map(SQ::UnionBasic),
         ];
         let key = prop_oneof![
             6 => Just(Key::Score),
@@ -128,6 +134,7 @@ impl Sub for TopK {
             1 => any::<bool>().prop_map(Key::Str),
             1 => Just(Key::Tweak),
             1 => Just(Key::NumThenScore),
+            1 => any::<bool>().prop_map(Key::JsonV),
         ];
         let probe = (sq, 0u8..12, prop_oneof![4 => Just(0u8), 1 => 1u8..6], key).prop_map(|(q, k, o, key)| Probe { q, k, o, key });
         (corpus_strategy(tier.pick(40, 160)), prop::collection::vec(probe, 20..41), any::<bool>(), 0u8..6, prop::collection::vec(any::<u16>(), 3..7))
@@ -229,7 +236,7 @@ impl Sub for TopK {
                 _ => n + 3,
             };
             cx.evals(1);
-            cx.label(&format!("key:{}", match p.key { Key::Score => "Score", Key::Num(_) => "Num", Key::MNum(_) => "MNum", Key::Fnum(_) => "Fnum", Key::Date(_) => "Date", Key::Str(_) => "Str", Key::Tweak => "Tweak", Key::NumThenScore => "NumThenScore" }));
+            cx.label(&format!("key:{}", match p.key { Key::Score => "Score", Key::Num(_) => "Num", Key::MNum(_) => "MNum", Key::Fnum(_) => "Fnum", Key::Date(_) => "Date", Key::Str(_) => "Str", Key::Tweak => "Tweak", Key::NumThenScore => "NumThenScore", Key::JsonV(_) => "JsonV" }));
             cx.label_if(k < n, "k<matches");
             cx.label_if(o > 0, "offset>0");
             cx.label_if(o >= n, "offset_beyond_end");
@@ -295,6 +302,39 @@ impl Sub for TopK {
                             // with an offset: the returned scores must lie between the tolerance-widened expected bounds
                             if let (Some(first), Some(e0)) = (got.first(), exp_slice.first()) {
                                 ensure!((first.0 - e0.0).abs() <= tol(e0.0) * 2.0 || exp.iter().any(|x| x.1 == first.1), "topk_offset_slice_wrong", "{ctxt}: first returned {first:?}, expected around {e0:?}");
+                            }
+                        }
+                    }
+                }
+                Key::JsonV(asc) => {
+                    let order = if asc { Order::Asc } else { Order::Desc };
+                    let mut exp: Vec<(u64, DocAddress)> = all.iter().map(|(_, a)| (json_v(um.uid(*a), by_uid[&um.uid(*a)]), *a)).collect();
+                    exp.sort_by(|a, b| (if asc { a.0.cmp(&b.0) } else { b.0.cmp(&a.0) }).then(a.1.cmp(&b.1)));
+                    let cut = (o + k).min(n);
+                    if cut > 0 && cut < n && exp[cut - 1].0 == exp[cut].0 {
+                        tie_at_cut = true;
+                    }
+                    let exp_slice: Vec<(u64, DocAddress)> = exp.iter().skip(o).take(k).cloned().collect();
+                    let collector = TopDocs::with_limit(k).and_offset(o).order_by((tantivy::collector::sort_key::SortByErasedType::for_field("attrs.v"), order));
+                    match searcher.search(&*tq, &collector) {
+                        // (documented: the column must exist in every segment)
+                        Err(tantivy::TantivyError::SchemaError(_)) => cx.label("erased_sort_column_missing_in_a_segment"),
+                        Err(e) => fail!("search_failed", "{ctxt}: {e:?}"),
+                        Ok(top) => {
+                            let mut got: Vec<(u64, DocAddress)> = vec![];
+                            for (v, a) in top {
+                                let x = match v {
+                                    tantivy::schema::OwnedValue::U64(x) => x,
+                                    tantivy::schema::OwnedValue::I64(x) if x >= 0 => x as u64,
+                                    other => fail!("topk_erased_key_unexpected_value", "{ctxt}: key {other:?} for {a:?} (the document holds an unsigned integer)"),
+                                };
+                                got.push((x, a));
+                            }
+                            let kinds: BTreeSet<bool> = all.iter().map(|(_, a)| json_v(um.uid(*a), by_uid[&um.uid(*a)]) > i64::MAX as u64).collect();
+                            cx.label_if(kinds.len() == 2, "erased_key_values_on_both_sides_of_i64_max");
+                            if got != exp_slice {
+                                let pos = got.iter().zip(exp_slice.iter()).position(|(a, b)| a != b).unwrap_or(got.len().min(exp_slice.len()));
+                                fail!("topk_erased_fast_field_differs_from_exhaustive", "{ctxt}: got {} entries, expected {}; first difference at rank {}: got {:?}, expected {:?}", got.len(), exp_slice.len(), o + pos, got.get(pos), exp_slice.get(pos));
                             }
                         }
                     }
